@@ -107,6 +107,12 @@ def build(B, cfg):
         v = B.var('fixed_value')
         fixed[name] = v
         pop.fix_parameters({name: v})
+    if cfg.get('fix_all'):
+        # every population parameter fixed: no top-level entries are left
+        pop = chi.ReducedPopulationModel(pop)
+        for k, name in enumerate(pop.get_parameter_names()):
+            fixed[name] = B.var('fixed_value%d' % k)
+        pop.fix_parameters(dict(fixed))
     n_cov = sum(u['cov'] for u in units)
     covs = None
     if n_cov:
